@@ -98,6 +98,15 @@ def t2(cx):
                     tail = x['name'].rsplit('::', 1)[-1]
                     if tail in ('saturating_sub', 'checked_sub', 'sub', 'mul_f64', 'mul_f32', 'div_f64', 'div_f32', 'checked_div', 'div') and x['name'].startswith(('std::time::Duration', 'std::ops::Sub', 'std::ops::Div')):
                         short = x
+            if short is None:
+                # ... or rebuilt from a truncated reading of itself (whole milliseconds / seconds): rounds the delay down
+                TRUNC = ('as_secs', 'as_millis', 'as_micros', 'subsec_millis', 'subsec_micros', 'as_secs_f32')
+                for x in g.nodes:
+                    if x['kind'] in ('call', 'enter') and x['name'].startswith('std::time::Duration::') and x['name'].rsplit('::', 1)[-1] in (
+                            'from_millis', 'from_secs', 'from_micros', 'from_nanos', 'new', 'from_secs_f32', 'from_secs_f64'):
+                        if any(mentions(a, lambda e: e[0] == 'call' and e[1].startswith('std::time::Duration::') and e[1].rsplit('::', 1)[-1] in TRUNC and e[2]
+                                        and any(mentions(e[2][0], lambda y, v=v: strip(y) == v) for v in gv)) for a in x['args']):
+                            short = x
             if short is not None:
                 res.append(Finding(ID, 'T2', label, False,
                                    'the time left until the deadline is shortened again before it is used as the delay (%s): the first event can come before the requested instant' % render(short['value'])[:80],
